@@ -281,24 +281,35 @@ def ladder_failures(ctx, dist=None, started=None):
 
 def file_variants(ctx):
     """canonical programs and their variants as FILES, named by any file name Pygments maps to the language (four in
-    five; half of those among the names another lexer claims too: `*.h`, `*.hh`, ...), a share with CR LF line ends
+    five; half of those among the names another lexer claims too: `*.h`, `*.hh`, ...), every line end x encoding in turn
     -> [case dict]"""
     import file_front as ff
     rnd = ctx.rng("c04files")
     out = []
-    for (lang, code, _) in scan_streams.canonical(ctx, ctx.pick(12, 120), "c04files"):
+    # byte-level forms, taken in turn: every line end (LF, CR LF, CR, mixed) x every encoding Code Limit reads (UTF-8 with
+    # a non-ASCII character, plain ASCII, a legacy 8-bit encoding: a non-ASCII character stored as ONE byte, not UTF-8)
+    forms = [(nl, enc) for enc in ("ascii", "utf-8", "latin-1") for nl in ff.NEWLINES]
+    rnd.shuffle(forms)
+    for k, (lang, code, _) in enumerate(scan_streams.canonical(ctx, ctx.pick(12, 120), "c04files")):
+        nl, enc = forms[k % len(forms)]
+        if enc != "ascii":
+            tail = ("# caf\xe9 \xa9 1999" if lang == "Python" else "// caf\xe9 \xa9 1999") + "\n"
+            code = code + ("" if code.endswith("\n") or not code else "\n") + tail
+        try:
+            code.encode("utf-8" if enc == "ascii" else enc)
+        except UnicodeEncodeError:
+            enc = "utf-8"
         b, t = safe_points(lang, code)
         if not b and not t:
             continue
         name = ff.pick_name(lang, rnd, "m%d" % len(out), sr.EXT[lang], share=0.8)
-        nl = rnd.choice(["lf", "lf", "crlf"])
         # for a name that several lexers claim: half of the comments from the texts that Pygments' content heuristics of
         # a competing lexer rate above the resolved one
         pool = scan_streams.lookalike_texts(name, ctx.rng("c04lookalike", os.path.splitext(name)[1])) or None
         for _ in range(ctx.pick(3, 6)):
             v, edits = make_variant(lang, code, rnd, b, t, pool)
             if edits:
-                out.append({"language": lang, "name": name, "newline": nl, "code": code, "variant": v, "edits": edits})
+                out.append({"language": lang, "name": name, "newline": nl, "encoding": _encodable(enc, v), "nl_seed": rnd.randrange(10 ** 6), "code": code, "variant": v, "edits": edits})
         # white space at the EDGES of the file only: blank / whitespace-only lines above the first and below the last line,
         # trailing blanks (what an editor's clean-up or a merge leaves behind)
         edits = [("blank", 0, rnd.choice(["", "", "  ", "\t"])) for _ in range(rnd.randint(1, 3))] if 0 in b else []
@@ -307,8 +318,25 @@ def file_variants(ctx):
         if t and rnd.random() < 0.5:
             edits += [("trail", rnd.choice(t), rnd.choice([" ", "  ", "\t"]))]
         if edits:
-            out.append({"language": lang, "name": name, "newline": nl, "code": code, "variant": apply_edits(code, edits), "edits": edits})
+            out.append({"language": lang, "name": name, "newline": nl, "encoding": _encodable(enc, apply_edits(code, edits)), "nl_seed": rnd.randrange(10 ** 6), "code": code, "variant": apply_edits(code, edits), "edits": edits})
     return out
+
+
+def _encodable(enc, text):
+    """`enc` if the (variant) text can be stored in it, else UTF-8 (an inserted comment may hold any character)"""
+    try:
+        text.encode("utf-8" if enc == "ascii" else enc)
+        return enc
+    except UnicodeEncodeError:
+        return "utf-8"
+
+
+def case_bytes(c, text):
+    """the bytes of the case's file: its line ends and its encoding (`ascii`: the text has no other characters)"""
+    import random
+    import file_front as ff
+    enc = c.get("encoding", "utf-8")
+    return ff.to_bytes(text, c["newline"], False, random.Random(c.get("nl_seed", 0)), "utf-8" if enc == "ascii" else enc)
 
 
 def file_failures(cases, workers=8):
@@ -330,12 +358,12 @@ def _file_chunk(cases):
     with ff.Tree("c04files_") as tree:
         for i, c in enumerate(cases):
             c["o"] = os.path.join("o%04d" % i, c["name"]); c["v"] = os.path.join("v%04d" % i, c["name"])
-            tree.write(c["o"], ff.to_bytes(c["code"], c["newline"]))
-            tree.write(c["v"], ff.to_bytes(c["variant"], c["newline"]))
+            tree.write(c["o"], case_bytes(c, c["code"]))
+            tree.write(c["v"], case_bytes(c, c["variant"]))
         cb, err = tree.scan()
         got = ff.entries(cb) if cb is not None else {}
         for c in cases:
-            inp = {"stream": "file", "language": c["language"], "name": c["name"], "newline": c["newline"], "code": c["code"], "edits": [list(e) for e in c["edits"]]}
+            inp = {"stream": "file", "language": c["language"], "name": c["name"], "newline": c["newline"], "encoding": c.get("encoding", "utf-8"), "nl_seed": c.get("nl_seed", 0), "code": c["code"], "edits": [list(e) for e in c["edits"]]}
             if err:
                 fails.append({"input": inp, "observed": "scan_path: " + err, "required": "completes", "kind": "pipeline"}); break
             o, v = got.get(c["o"]), got.get(c["v"])
@@ -353,14 +381,14 @@ def _file_chunk(cases):
         if cb is not None and not err:
             report = ff.report_of(cb)
             for c in cases:
-                tree.write(c["o"], ff.to_bytes(c["variant"], c["newline"]))
+                tree.write(c["o"], case_bytes(c, c["variant"]))
             cb2, err2 = tree.scan(report)
             got2 = ff.entries(cb2) if cb2 is not None else {}
             for c in cases:
                 if "o_ms" not in c:
                     continue
                 inp = {"stream": "file", "history": "edited in place, scanned again with the first report as cache", "language": c["language"], "name": c["name"],
-                       "newline": c["newline"], "code": c["code"], "edits": [list(e) for e in c["edits"]]}
+                       "newline": c["newline"], "encoding": c.get("encoding", "utf-8"), "nl_seed": c.get("nl_seed", 0), "code": c["code"], "edits": [list(e) for e in c["edits"]]}
                 if err2:
                     fails.append({"input": inp, "observed": "scan_path: " + err2, "required": "completes", "kind": "pipeline"}); break
                 want = expected_after(c["o_ms"], c["edits"])
@@ -447,6 +475,111 @@ def wide_failures(ctx, dist=None):
     return n, nontrivial, fails[:4]
 
 
+# ---- listings: the findings listing (library, text and markdown formatters, CLI) before / after invisible edits -----------
+
+INSERT_RUNGS = [1, 2, 3, 5, 9, 10, 30, 90, 100, 1000]
+
+
+def listing_cases(ctx):
+    """trees of 1..3 files; every file holds several functions of EQUAL length above the listing threshold (lengths from a
+    ladder around 30 / 60, each used 2..5 times, shuffled); edits: runs of 1 .. 1000 (+ integers new in the source) blank /
+    whitespace-only / comment-only lines inserted above the first function or between two functions"""
+    import file_front as ff
+    from gen import srcdict
+    rnd = ctx.rng("c04listing")
+    rungs = sorted(set(INSERT_RUNGS) | set(srcdict.novel_rungs(1, 3000)))
+    lengths = sorted({31, 32, 36, 45, 60, 61, 62, 75, 100} | set(srcdict.novel_rungs(31, 150)))
+    cases = []
+    for k in range(ctx.pick(8, 60)):
+        files, edits = {}, {}
+        for j in range(rnd.randint(1, 3)):
+            lang = rnd.choice(sr.LANGS)
+            ls = []
+            for n in rnd.sample(lengths, rnd.randint(1, 3)):
+                ls += [n] * rnd.randint(2, 5)
+            rnd.shuffle(ls)
+            text, gaps = scan_streams.tie_program(lang, [("t%d_%d_%d" % (k, j, i), n) for i, n in enumerate(ls)])
+            rel = os.path.join(rnd.choice(["", "src", "lib"]), "m%d_%d.%s" % (k, j, sr.EXT[lang]))
+            files[rel] = {"language": lang, "text": text}
+            if j == 0 or rnd.random() < 0.6:
+                c = "# %s" if lang == "Python" else rnd.choice(["// %s", "/* %s */"])
+                edits[rel] = [[rnd.choice(gaps), rnd.choice(rungs), rnd.choice(["", "   ", "\t", c % "licence", c % "explains the step below"])] for _ in range(rnd.randint(1, 2))]
+        cases.append({"stream": "listing", "files": files, "edits": edits, "newline": rnd.choice(["lf", "lf", "crlf"]), "cli": k < ctx.pick(1, 4)})
+    return cases
+
+
+def _insert_lines(text, edits):
+    lines = text.split("\n")
+    for (at, n, line) in sorted(edits, key=lambda e: -e[0]):
+        lines[at:at] = [line] * n
+    return "\n".join(lines)
+
+
+def _listings(cb):
+    """what users see of the findings: the library listing and the text / markdown formatters, default and --full"""
+    import io
+    from rich.console import Console
+    from codelimit.common.report.Report import Report
+    from codelimit.common.report import format_text, format_markdown
+    rep = Report(cb)
+    out = {"units": [(u.file, u.measurement.unit_name, u.measurement.start.line, u.measurement.value) for u in rep.all_report_units_sorted_by_length_asc(30)]}
+    for full in (False, True):
+        buf = io.StringIO(); format_text.print_findings(Console(file=buf, width=250, soft_wrap=True), rep, full); out["findings%s" % (" --full" if full else "")] = buf.getvalue()
+        buf = io.StringIO(); format_markdown.print_findings(rep, Console(file=buf, width=250, soft_wrap=True), full); out["findings --format markdown%s" % (" --full" if full else "")] = buf.getvalue()
+    return out
+
+
+def _names_in(text):
+    import re
+    return re.findall(r"\bt\d+_\d+_\d+\b", text)
+
+
+def _listing_work(case):
+    """-> (functions listed, failures): the listing of the edited tree = the listing of the original tree, the same
+    functions in the same order (every view), each line shifted by the lines inserted above it (library view)"""
+    import file_front as ff
+    fails = []
+    inp = {k: case[k] for k in ("stream", "files", "edits", "newline", "cli")}
+    with ff.Tree("c04list_") as tree:
+        views = []
+        for phase in (0, 1):
+            for rel, f in case["files"].items():
+                text = f["text"] if phase == 0 else _insert_lines(f["text"], case["edits"].get(rel, []))
+                tree.write(rel, ff.to_bytes(text, case["newline"]))
+            cb, err = tree.scan()
+            if err:
+                return 0, [{"input": inp, "observed": "scan_path: " + err, "required": "completes", "kind": "pipeline"}]
+            v = _listings(cb)
+            if case.get("cli"):
+                st, out = ff.cli(["scan", tree.root], tree.root)
+                for args in (["findings"], ["findings", "--full"], ["findings", "--format", "markdown"]):
+                    st2, out2 = ff.cli(args + [tree.root], tree.root)
+                    v["CLI: codelimit scan; codelimit %s" % " ".join(args)] = "exit %s/%s\n%s" % (st, st2, out2)
+            views.append(v)
+        before, after = views
+        shift = lambda rel, line: line + sum(n for (at, n, _) in case["edits"].get(rel, []) if at < line)
+        want = [(f, name, shift(f, line), value) for (f, name, line, value) in before["units"]]
+        if after["units"] != want:
+            diff = [i for i, (a, b) in enumerate(zip(after["units"], want)) if a != b][:1]
+            fails.append({"input": inp, "observed": "library listing, first difference at row %s: %s" % (diff, after["units"][diff[0]:diff[0] + 3] if diff else len(after["units"])),
+                          "required": "the rows of the original listing with shifted lines: %s" % (want[diff[0]:diff[0] + 3] if diff else len(want)), "kind": "pipeline"})
+        for key in before:
+            if key != "units" and _names_in(before[key]) != _names_in(after[key]):
+                fails.append({"input": inp, "observed": "%s lists %s" % (key, _names_in(after[key])[:12]), "required": "the functions of the listing before the edit, in that order: %s" % _names_in(before[key])[:12], "kind": "pipeline"})
+        return len(before["units"]), fails[:2]
+
+
+def listing_failures(ctx, dist=None):
+    cases = listing_cases(ctx)
+    res = scan_streams.heavy_map(_listing_work, cases, 6)
+    fails = [f for (_, fs) in res for f in fs]
+    fails.sort(key=lambda f: sum(len(x["text"]) for x in f["input"]["files"].values()))
+    if dist is not None:
+        dist["listings"] = {"trees": len(cases), "functions_listed": sum(n for (n, _) in res), "through_the_cli": sum(1 for c in cases if c["cli"]),
+                            "inserted_runs": sorted({e[1] for c in cases for es in c["edits"].values() for e in es})}
+    return len(cases), sum(1 for (n, _) in res if n), fails[:4]
+
+
 def _extra_job(tier):
     """the file stream and the column ladder, run in a worker process next to the in-memory comparison"""
     import main
@@ -455,9 +588,11 @@ def _extra_job(tier):
     fcases = file_variants(ctx)
     nfile, fnontrivial, ffails = file_failures(fcases)
     dist["files"] = {"variants": nfile, "with_functions": fnontrivial, "crlf": sum(1 for c in fcases if c["newline"] == "crlf"),
+                     "line_ends_x_encodings": {"%s/%s" % (nl, enc): sum(1 for c in fcases if (c["newline"], c["encoding"]) == (nl, enc)) for nl in ("lf", "crlf", "cr", "mixed") for enc in ("ascii", "utf-8", "latin-1")},
                      "names": sorted({os.path.splitext(c["name"])[1] or c["name"] for c in fcases})}
     nwide, wnontrivial, wfails = wide_failures(ctx, dist)
-    return nfile + nwide, fnontrivial + wnontrivial, wfails + ffails, dist
+    nlist, lnontrivial, lfails = listing_failures(ctx, dist)
+    return nfile + nwide + nlist, fnontrivial + wnontrivial + lnontrivial, lfails + wfails + ffails, dist
 
 
 def base_cases(ctx):
@@ -528,7 +663,7 @@ def _correspond_programs(ctx):
     dist["foreign_comment_texts"] = sum(1 for (_, _, _, edits) in variants for e in edits if e[0] in ("comment", "trail") and e[2] and any(ch in e[2] for ch in "@[$<`"))
     return {
         "evaluations": len(variants) + nladder, "distinct_nontrivial": len(nontrivial) + lnontrivial,
-        "rule": "comment texts: each language's own styles plus (a third) texts in the syntax of many languages - sigil words, quoted strings, bracketed word groups, foreign comment openers, rulers, string literals of the code under check; FILES: original and variant written under any file name Pygments maps to the language (`*.h`, `*.hh`, `*.mjs`, `BUILD`, ...; a third with CR LF line ends; for names that several lexers claim, half of the comment texts are those that a competing lexer's Pygments content heuristic rates above the resolved lexer's) and observed through Scanner.scan_path(root).files, fresh and - history - after the original was overwritten by its variant, scanned again with the first scan's report as cache (one variant per file with white space at the edges of the file only); column ladder: one code line of a brace-language program pushed right by 10^2 .. 10^5 characters (block comment / blanks; plus n-1, n, n+1, 2n for integers new in the source) x one insertion at every safe boundary within three lines of it + random multi-insertions; size ladder: generated files of 10^2 .. 10^4 lines (many functions; thorough: also one function of 3162 lines) x 10, 10^2, 10^3, 10^4, 10^5 simultaneous insertions (any number at the same point), real analysis before and after, direct oracle only; canonical programs and the vendored corpus x 1..5 simultaneous insertions (blank line, whitespace-only line, comment-only line in every comment style of the language incl. two-line block comments, trailing comment, trailing blanks) at token-safe points computed from the real lexer's token stream (thorough: additionally every safe point of every file of at most 100 lines); oracle: analysis of the variant = analysis of the original with every line shifted by the number of lines inserted above it; non-trivial = distinct variants of files with at least one function",
+        "rule": "LISTINGS: trees of 1..3 files holding several functions of EQUAL length above the listing threshold (lengths 31 .. 100, each 2..5 times, shuffled), the findings listing observed through Report.all_report_units_sorted_by_length_asc, the text and markdown formatters (default and --full) and `codelimit scan` + `codelimit findings [--full|--format markdown]` in fresh processes, before and after runs of 1, 2, 3, 5, 9, 10, 30, 90, 100, 1000 (+ integers new in the source) blank / whitespace-only / comment-only lines inserted above the first function or between functions: same functions in the same order, lines shifted; comment texts: each language's own styles plus (a third) texts in the syntax of many languages - sigil words, quoted strings, bracketed word groups, foreign comment openers, rulers, string literals of the code under check; FILES: original and variant written under any file name Pygments maps to the language (`*.h`, `*.hh`, `*.mjs`, `BUILD`, ...; as BYTES in every combination of line end (LF, CR LF, CR, mixed) x encoding (ASCII, UTF-8 with a non-ASCII character, a legacy 8-bit encoding that is not valid UTF-8), taken in turn; for names that several lexers claim, half of the comment texts are those that a competing lexer's Pygments content heuristic rates above the resolved lexer's) and observed through Scanner.scan_path(root).files, fresh and - history - after the original was overwritten by its variant, scanned again with the first scan's report as cache (one variant per file with white space at the edges of the file only); column ladder: one code line of a brace-language program pushed right by 10^2 .. 10^5 characters (block comment / blanks; plus n-1, n, n+1, 2n for integers new in the source) x one insertion at every safe boundary within three lines of it + random multi-insertions; size ladder: generated files of 10^2 .. 10^4 lines (many functions; thorough: also one function of 3162 lines) x 10, 10^2, 10^3, 10^4, 10^5 simultaneous insertions (any number at the same point), real analysis before and after, direct oracle only; canonical programs and the vendored corpus x 1..5 simultaneous insertions (blank line, whitespace-only line, comment-only line in every comment style of the language incl. two-line block comments, trailing comment, trailing blanks) at token-safe points computed from the real lexer's token stream (thorough: additionally every safe point of every file of at most 100 lines); oracle: analysis of the variant = analysis of the original with every line shifted by the number of lines inserted above it; non-trivial = distinct variants of files with at least one function",
         "samples": [{"language": l, "edits": e, "original": originals[(l, c)][:80], "variant": r[:80]} for (l, c, v, e), r in list(zip(variants, vr))[5:8]],
         "exhaustive": False, "distribution": dist,
         "disagreements": dis[:50], "oracle_failures": fails[:50],
@@ -557,7 +692,7 @@ def search(ctx, hints):
             fails.append({"input": {"language": lang, "code": code, "edits": [list(e) for e in edits]}, "observed": r[:200], "required": str(want)[:200],
                           "kind": "lexer" if lexer_changed(lang, code, v) else "pipeline"})
     fails.sort(key=lambda f: len(f["input"]["code"]) + 50 * len(f["input"]["edits"]))
-    return fails[:8] + ladder_failures(ctx)[2][:3] + wide_failures(ctx)[2][:2] + file_failures(file_variants(ctx))[2][:3]
+    return fails[:8] + ladder_failures(ctx)[2][:3] + wide_failures(ctx)[2][:2] + file_failures(file_variants(ctx))[2][:3] + listing_failures(ctx)[2][:2]
 
 
 def replay(payload):
@@ -566,6 +701,10 @@ def replay(payload):
         res = _wide_work(inp)
         print("%s: generated program with one line pushed right by %d characters (%s), edits %s -> %s" % (inp["language"], inp["chars"], inp.get("kind"), inp.get("edits"), res["bad"] or "unchanged up to the line shift"))
         return not res["bad"]
+    if inp.get("stream") == "listing":
+        n, fs = _listing_work(inp)
+        print("tree %s, runs of lines inserted %s -> %s" % (sorted(inp["files"]), {r: [(at, k, line) for (at, k, line) in es] for r, es in inp["edits"].items()}, fs[0]["observed"] if fs else "%d functions listed as before" % n))
+        return not fs
     if inp.get("stream") == "file":
         c = dict(inp, edits=[tuple(e) for e in inp["edits"]])
         c["variant"] = apply_edits(c["code"], c["edits"])
